@@ -567,6 +567,639 @@ def run_execcomp_case(case, acc):
                 pass
 
 
+# ----------------------------------------------------------------------------------------------
+# (b2) framework layer, call-shape dimension and partial colorings restricted to some inputs
+# ----------------------------------------------------------------------------------------------
+def _varblock_pattern(rng, osz, isz):
+    """Sparsity with structure at the variable level: every (output var, input var) block is empty,
+    diagonal-like, dense or random - permuting or dropping variables then really changes the layout."""
+    m, n = sum(osz), sum(isz)
+    P = np.zeros((m, n), dtype=bool)
+    r0 = 0
+    for a in osz:
+        c0 = 0
+        for b in isz:
+            k = rng.choice(['zero', 'zero', 'diag', 'diag', 'dense', 'random'])
+            if k == 'diag':
+                for i in range(max(a, b)):
+                    P[r0 + i % a, c0 + i % b] = True
+            elif k == 'dense':
+                P[r0:r0 + a, c0:c0 + b] = True
+            elif k == 'random':
+                for i in range(a):
+                    for j in range(b):
+                        P[r0 + i, c0 + j] = rng.random() < 0.5
+            c0 += b
+        r0 += a
+    return P
+
+
+def _pick_list(rng, kind, driver_names, src_names, allow_src=True):
+    """The `of` / `wrt` argument of one call; None = argument not passed."""
+    n = len(driver_names)
+    if kind == 'none':
+        return None
+    if kind == 'driver' or (kind == 'src' and not allow_src):
+        return list(driver_names)
+    if kind == 'src':
+        return list(src_names)
+    names = [rng.choice(pair) for pair in zip(driver_names, src_names)] if allow_src and rng.random() < 0.3 \
+        else list(driver_names)
+    if kind == 'perm':
+        idx = list(range(n))
+        while idx == list(range(n)):
+            rng.shuffle(idx)
+        return [names[i] for i in idx]
+    keep = sorted(rng.sample(range(n), rng.randrange(1, n)))
+    if kind == 'subperm' and len(keep) > 1:
+        keep = keep[::-1] if len(keep) == 2 else rng.sample(keep, len(keep))
+    return [names[i] for i in keep]
+
+
+CUSTOM = ['perm', 'subset', 'subperm']
+
+
+def gen_calls_case(rng, idx):
+    ni, no = rng.choice([2, 3, 3, 4]), rng.choice([2, 3, 3])
+    isz = [rng.choice([1, 2, 3]) for _ in range(ni)]
+    osz = [rng.choice([1, 1, 2, 3]) for _ in range(no)]
+    m, n = sum(osz), sum(isz)
+    kind = rng.choice(['varblock', 'varblock', 'varblock', 'banded', 'arrow', 'random'])
+    P = _varblock_pattern(rng, osz, isz) if kind == 'varblock' else structured_pattern(rng, m, n, kind)
+    for i in range(m):
+        if not P[i].any():
+            P[i, rng.randrange(n)] = True
+    for j in range(n):
+        if not P[:, j].any():
+            P[rng.randrange(m), j] = True
+    A = [[round(rng.uniform(1, 2), 4) if P[i, j] else 0.0 for j in range(n)] for i in range(m)]
+    case = {'kind': 'calls', 'idx': idx, 'isz': isz, 'osz': osz, 'pkind': kind, 'A': A,
+            'g': rng.choice(['lin', 'sq']), 'x0': [round(rng.uniform(0.5, 1.5), 4) for _ in range(n)],
+            'mode': rng.choice(['fwd', 'rev', 'auto']), 'direct': rng.random() < 0.6,
+            'promote': rng.random() < 0.6, 'colsrc': rng.choice(['dynamic', 'dynamic', 'fixed-object', 'fixed-file'])}
+    case['driver'] = 'scipy' if case['colsrc'] != 'dynamic' or rng.random() < 0.5 else 'base'
+    ones = [k for k, sz in enumerate(osz) if sz == 1]
+    case['obj'] = rng.choice(ones) if ones and rng.random() < 0.6 else None
+    case['scaling'] = None
+    if rng.random() < 0.4:
+        case['scaling'] = {'dv': [[round(rng.uniform(0.2, 5), 3) for _ in range(k)] for k in isz],
+                           'con': [[round(rng.uniform(0.2, 5), 3) for _ in range(k)] for k in osz]}
+    # desvar / constraint indices: the driver's jacobian then has fewer columns / rows than the variables
+    case['didx'] = [sorted(rng.sample(range(sz), rng.randrange(1, sz))) if sz > 1 and rng.random() < 0.2 else None
+                    for sz in isz]
+    case['cidx'] = [sorted(rng.sample(range(sz), rng.randrange(1, sz))) if sz > 1 and rng.random() < 0.2 else None
+                    for sz in osz]
+    dvs, dv_src, resps, resp_src = _h_names(case)
+    pr = case['promote']
+
+    def call(ofk, wrtk, api='compute_totals'):
+        c = {'api': api, 'fmt': rng.choice(['array', 'array', 'dict', 'flat_dict']) if api == 'compute_totals' else None,
+             'ds': bool(case['scaling']) and rng.random() < 0.5,
+             'ci': False if (api == 'compute_totals' and rng.random() < 0.1) else None}
+        # what a source name means for driver scaling / response indices is not C03's business: a response that
+        # is referred to by its source name gets neither, so source names are used only where that is immaterial
+        src_ok = pr and not c['ds']
+        of_src_ok = src_ok and not any(case['cidx'])
+        if ofk == 'src' and not of_src_ok:
+            ofk = 'driver'
+        if wrtk == 'src' and not src_ok:
+            wrtk = 'driver'
+        c.update({'of': _pick_list(rng, ofk, resps, resp_src, of_src_ok),
+                  'wrt': _pick_list(rng, wrtk, dvs, dv_src, src_ok), 'ofk': ofk, 'wrtk': wrtk})
+        if ofk == 'perm' and case['obj'] and rng.random() < 0.5:
+            # the responses in the order they were declared (the objective after a constraint), by source name
+            decl = sorted(range(len(resps)), key=lambda a: resp_src[a])
+            c['of'] = [resp_src[a] if of_src_ok or not pr else resps[a] for a in decl]
+        if c['of'] is not None and case['obj'] and len(c['of']) == len(resps) and \
+                [resp_src[resps.index(nm)] if nm in resps else nm for nm in c['of']] == sorted(resp_src):
+            c['ofk'] = 'declaration-order'
+        return c
+    one_sided = call('none', rng.choice(CUSTOM)) if rng.random() < 0.5 else call(rng.choice(CUSTOM), 'none')
+    drv_order = call(*rng.choice([('none', 'none'), ('none', 'none'), ('driver', 'driver'), ('src', 'src'),
+                                  ('none', 'driver'), ('src', 'none')]))
+    drv_order['ci'] = None
+    both = call(rng.choice(CUSTOM + ['driver']), rng.choice(CUSTOM))
+    special = call(rng.choice(['none', 'driver'] + CUSTOM), rng.choice(['none', 'driver'] + CUSTOM), api='check_totals') \
+        if rng.random() < 0.5 else {'api': 'driver', 'of': None, 'wrt': None, 'ofk': 'none', 'wrtk': 'none',
+                                    'fmt': 'array', 'ds': True, 'ci': None}
+    other = call(rng.choice(['none', 'src'] + CUSTOM), rng.choice(['none', 'src'] + CUSTOM))
+    r = rng.random()
+    if r < 0.35:            # a one-sided custom call BEFORE the coloring exists, then what every driver does
+        rest = [both, special, other]
+        rng.shuffle(rest)
+        seq = [one_sided, drv_order] + rest
+    elif r < 0.55:
+        rest = [one_sided, both, special, other]
+        rng.shuffle(rest)
+        seq = [drv_order] + rest
+    else:
+        seq = [one_sided, drv_order, both, special, other]
+        rng.shuffle(seq)
+    case['calls'] = seq
+    return case
+
+
+def _h_names(case):
+    ni, no = len(case['isz']), len(case['osz'])
+    pr = case.get('promote')
+    dv_src = ['ivc.x%d' % (k + 1) for k in range(ni)]
+    dvs = ['x%d' % (k + 1) for k in range(ni)] if pr else list(dv_src)
+    order = list(range(no))
+    if case.get('obj') is not None:         # objectives come first in the driver's response order
+        order.remove(case['obj'])
+        order.insert(0, case['obj'])
+    resp_src = ['c.y%d' % (k + 1) for k in order]
+    resps = ['y%d' % (k + 1) for k in order] if pr else list(resp_src)
+    return dvs, dv_src, resps, resp_src
+
+
+def _wrt_matched(case):
+    """Inputs (relative names) a component-level declare_coloring(wrt=case['pwrt']) selects; None = no partial
+    coloring requested."""
+    import fnmatch
+    if case.get('pwrt') is None:
+        return None
+    names = ['x%d' % (k + 1) for k in range(len(case['isz']))]
+    return [nm for nm in names if any(fnmatch.fnmatchcase(nm, pat) for pat in case['pwrt'])]
+
+
+def build_h(case, tot=None, par=None):
+    """Harness y = A g(x) with any number of input/output variables.
+    tot: None | 'dynamic' | Coloring | filename (driver total coloring)
+    par: None | 'dynamic' | filename (component coloring over the inputs matched by case['pwrt'])"""
+    import openmdao.api as om
+    isz, osz = case['isz'], case['osz']
+    n, m = sum(isz), sum(osz)
+    A = np.array(case['A']).reshape(m, n)
+    P = A != 0
+    ioff, ooff = np.cumsum([0] + isz), np.cumsum([0] + osz)
+    xs = {'x%d' % (k + 1): slice(int(ioff[k]), int(ioff[k + 1])) for k in range(len(isz))}
+    ys = {'y%d' % (k + 1): slice(int(ooff[k]), int(ooff[k + 1])) for k in range(len(osz))}
+    gname = case['g']
+    matched = _wrt_matched(case)
+    method = case.get('method', 'cs')
+    other = case.get('other', 'analytic-sparse')
+    approx_in = set(xs) if other == 'approx' else set(matched or ())
+    by_block = bool(case.get('by_block'))
+
+    def g(x):
+        return x if gname == 'lin' else x * x
+
+    def gp(x):
+        return np.ones_like(x) if gname == 'lin' else 2 * x
+
+    class PatN(om.ExplicitComponent):
+        def setup(self):
+            for xn, sl in xs.items():
+                self.add_input(xn, np.ones(sl.stop - sl.start))
+            for yn, sl in ys.items():
+                self.add_output(yn, np.ones(sl.stop - sl.start))
+            for xn, xsl in xs.items():
+                if xn in approx_in:
+                    if by_block:
+                        for yn, ysl in ys.items():
+                            if P[ysl, xsl].any():
+                                self.declare_partials(yn, xn, method=method)
+                    else:
+                        self.declare_partials('*', xn, method=method)
+                elif other == 'analytic-dense':
+                    self.declare_partials('*', xn)
+                else:
+                    for yn, ysl in ys.items():
+                        rows, cols = np.nonzero(P[ysl, xsl])
+                        if rows.size:
+                            self.declare_partials(yn, xn, rows=rows, cols=cols)
+            if par is not None:
+                self.declare_coloring(wrt=case['pwrt'], method=method, min_improve_pct=0., num_full_jacs=2,
+                                      show_summary=False, show_sparsity=False)
+                if par != 'dynamic':
+                    self.use_fixed_coloring(par, recurse=False)
+
+        def compute(self, inputs, outputs):
+            x = np.concatenate([inputs[xn] for xn in xs])
+            y = A.dot(g(x))
+            for yn, sl in ys.items():
+                outputs[yn] = y[sl]
+
+        def compute_partials(self, inputs, partials):
+            x = np.concatenate([inputs[xn] for xn in xs]).real
+            Jf = A * gp(x)[None, :]
+            for xn, xsl in xs.items():
+                if xn in approx_in:
+                    continue
+                for yn, ysl in ys.items():
+                    blk = Jf[ysl, xsl]
+                    if other == 'analytic-dense':
+                        partials[yn, xn] = blk
+                    else:
+                        rows, cols = np.nonzero(P[ysl, xsl])
+                        if rows.size:
+                            partials[yn, xn] = blk[rows, cols]
+
+    p = om.Problem()
+    mdl = p.model
+    pr = ['*'] if case.get('promote') else None
+    ivc = mdl.add_subsystem('ivc', om.IndepVarComp(), promotes=pr)
+    x0 = np.array(case['x0'], dtype=float)
+    for xn, sl in xs.items():
+        ivc.add_output(xn, x0[sl])
+    mdl.add_subsystem('c', PatN(), promotes=pr)
+    if not pr:
+        for xn in xs:
+            mdl.connect('ivc.' + xn, 'c.' + xn)
+    sc = case.get('scaling')
+    dvs, _, resps, _ = _h_names(case)
+    didx = case.get('didx') or [None] * len(isz)
+    cidx = case.get('cidx') or [None] * len(osz)
+
+    def sub(v, idx):
+        v = np.array(v, dtype=float)
+        return v if idx is None else v[idx]
+    for k, nm in enumerate(dvs):
+        mdl.add_design_var(nm, indices=didx[k], scaler=sub(sc['dv'][k], didx[k]) if sc else None)
+    for k in range(len(osz)):
+        nm = ('y%d' if pr else 'c.y%d') % (k + 1)
+        if case.get('obj') == k:
+            mdl.add_objective(nm, scaler=float(sc['con'][k][0]) if sc else None)
+        else:
+            mdl.add_constraint(nm, upper=1e3, indices=cidx[k], scaler=sub(sc['con'][k], cidx[k]) if sc else None)
+    if case.get('driver') == 'scipy':
+        p.driver = om.ScipyOptimizeDriver(optimizer='SLSQP', disp=False)
+    if tot == 'dynamic':
+        p.driver.declare_coloring(direct=case.get('direct', True), min_improve_pct=0., num_full_jacs=2,
+                                  show_summary=False, show_sparsity=False)
+    elif tot is not None:
+        p.driver.use_fixed_coloring(tot)
+    import contextlib
+    import io
+    with contextlib.redirect_stdout(io.StringIO()):        # 'loading coloring from file ...'
+        p.setup(mode=case.get('mode', 'auto'), force_alloc_complex=True)
+        p.run_model()
+    return p
+
+
+def closed_form_h(case, ds):
+    """Full total jacobian in driver order, as {(response index in driver order, dv index): block}."""
+    isz, osz = case['isz'], case['osz']
+    n, m = sum(isz), sum(osz)
+    A = np.array(case['A']).reshape(m, n)
+    x0 = np.array(case['x0'], dtype=float)
+    Jx = A * (np.ones_like(x0) if case['g'] == 'lin' else 2 * x0)[None, :]
+    if ds and case.get('scaling'):
+        sdv = np.concatenate([np.array(v, dtype=float) for v in case['scaling']['dv']])
+        scon = np.concatenate([np.array(v, dtype=float) for v in case['scaling']['con']])
+        Jx = Jx * scon[:, None] / sdv[None, :]
+    ioff, ooff = np.cumsum([0] + isz), np.cumsum([0] + osz)
+    order = list(range(len(osz)))
+    if case.get('obj') is not None:
+        order.remove(case['obj'])
+        order.insert(0, case['obj'])
+    didx = case.get('didx') or [None] * len(isz)
+    cidx = case.get('cidx') or [None] * len(osz)
+    out = {}
+    for a, k in enumerate(order):
+        for b in range(len(isz)):
+            blk = Jx[ooff[k]:ooff[k + 1], ioff[b]:ioff[b + 1]]
+            if cidx[k] is not None:
+                blk = blk[cidx[k], :]
+            if didx[b] is not None:
+                blk = blk[:, didx[b]]
+            out[a, b] = blk
+    return out
+
+
+def _do_call(p, call):
+    """One call in the shape the case prescribes; returns {(of name, wrt name): block} or a 2-D array."""
+    kw = {}
+    if call['of'] is not None:
+        kw['of'] = list(call['of'])
+    if call['wrt'] is not None:
+        kw['wrt'] = list(call['wrt'])
+    if call['api'] == 'driver':
+        return np.array(p.driver._compute_totals(return_format='array'))
+    if call['api'] == 'check_totals':
+        data = p.check_totals(out_stream=None, method='cs', driver_scaling=call['ds'], **kw)
+        out = {}
+        for key, d in data.items():
+            J = d.get('J_fwd', d.get('J_rev'))
+            out[key] = np.array(J)
+        return out
+    if call.get('ci') is False:
+        kw['coloring_info'] = False
+    J = p.compute_totals(return_format=call['fmt'], driver_scaling=call['ds'], **kw)
+    if call['fmt'] == 'array':
+        return np.array(J)
+    if call['fmt'] == 'dict':
+        return {(o, w): np.array(v) for o, sub in J.items() for w, v in sub.items()}
+    return {k: np.array(v) for k, v in J.items()}
+
+
+def _expected(case, call, blocks):
+    """Closed-form answer of a call: (dense matrix in the caller's order, {(of idx, wrt idx): block})."""
+    dvs, dv_src, resps, resp_src = _h_names(case)
+    ofs = [(resps.index(nm) if nm in resps else resp_src.index(nm)) for nm in (call['of'] or resps)]
+    wrts = [(dvs.index(nm) if nm in dvs else dv_src.index(nm)) for nm in (call['wrt'] or dvs)]
+    return np.block([[blocks[a, b] for b in wrts] for a in ofs]), ofs, wrts
+
+
+def _compare(case, call, res, blocks, tol):
+    """None if `res` equals the closed form, else a short description."""
+    dvs, dv_src, resps, resp_src = _h_names(case)
+    full, ofs, wrts = _expected(case, call, blocks)
+    if isinstance(res, np.ndarray):
+        if res.shape != full.shape:
+            return 'shape %s, expected %s' % (res.shape, full.shape)
+        d = np.abs(res - full)
+        if np.any(d > tol) or not np.all(np.isfinite(res)):
+            k = np.unravel_index(np.argmax(d), d.shape)
+            return 'entry %s is %r, exact %r; %d of %d entries wrong' % (tuple(int(v) for v in k), res[k], full[k],
+                                                                        int((d > tol).sum()), d.size)
+        return None
+    seen = set()
+    for (o, w), blk in res.items():
+        a = resps.index(o) if o in resps else (resp_src.index(o) if o in resp_src else None)
+        b = dvs.index(w) if w in dvs else (dv_src.index(w) if w in dv_src else None)
+        if a is None or b is None or a not in ofs or b not in wrts:
+            return 'unexpected key (%s, %s)' % (o, w)
+        seen.add((a, b))
+        ex = blocks[a, b]
+        blk = np.atleast_2d(blk)
+        if blk.shape != ex.shape:
+            return 'block (%s, %s) has shape %s, expected %s' % (o, w, blk.shape, ex.shape)
+        if np.any(np.abs(blk - ex) > tol) or not np.all(np.isfinite(blk)):
+            return 'block (%s, %s) is %s, exact %s' % (o, w, blk.tolist(), ex.tolist())
+    missing = [(a, b) for a in ofs for b in wrts if (a, b) not in seen]
+    if missing:
+        return 'blocks %s missing from the result' % missing[:4]
+    return None
+
+
+def _is_driver_order(case, call):
+    dvs, dv_src, resps, resp_src = _h_names(case)
+    return (call['of'] is None or call['of'] in (resps, resp_src)) and \
+        (call['wrt'] is None or call['wrt'] in (dvs, dv_src))
+
+
+def run_calls_case(case, acc):
+    """Sequence of compute_totals / check_totals / driver calls of different shapes on a problem whose driver has a
+    total coloring and on its uncolored twin; every result must equal the closed form."""
+    import tempfile
+    import os
+    install(acc)
+    _state['ctx'] = 'calls'
+    ps = []
+    try:
+        try:
+            tot = 'dynamic'
+            if case['colsrc'] != 'dynamic':
+                pg = build_h(case, tot='dynamic')
+                ps.append(pg)
+                pg.compute_totals(return_format='array')
+                tot = pg.driver._coloring_info.coloring
+                if tot is None:
+                    acc.skip('no-coloring-to-fix')
+                    return
+                if case['colsrc'] == 'fixed-file':
+                    fn = os.path.join(tempfile.mkdtemp(prefix='c03col'), 'total_coloring.pkl')
+                    tot.save(fn)
+                    tot = fn
+            p = build_h(case, tot=tot)
+            ps.append(p)
+            p0 = build_h(case, tot=None)
+            ps.append(p0)
+        except Exception as e:
+            acc.viol('calls:build:raises:%s' % type(e).__name__, str(e)[:300], case)
+            return
+        bad = False
+        used_any = False
+        seen_driver_order = False
+        for k, call in enumerate(case['calls']):
+            blocks = closed_form_h(case, call['ds'])
+            tol = 1e-12 * max(max(np.abs(b).max() for b in blocks.values()), 1e-300)
+            sided = 'none' if call['of'] is None and call['wrt'] is None else \
+                ('wrt-only' if call['of'] is None else ('of-only' if call['wrt'] is None else 'both'))
+            when = 'first-call' if k == 0 else ('after-driver-order-call' if seen_driver_order else
+                                                'after-custom-calls-only')
+            if _is_driver_order(case, call):
+                # 'poisoned': the only earlier calls were custom ones, so whatever coloring is stored was made then
+                sig = '%s:driver-order%s' % (sided, ':after-custom-calls-only' if when == 'after-custom-calls-only'
+                                             else '')
+            else:
+                kinds = sorted({kk for kk in (call['ofk'], call['wrtk']) if kk not in ('none', 'driver', 'src')})
+                sig = '%s:%s' % (sided, '+'.join(kinds))
+            try:
+                r0 = _do_call(p0, call)
+                why0 = _compare(case, call, r0, blocks, tol)
+            except Exception as e:
+                why0 = 'raises %s: %s' % (type(e).__name__, str(e)[:120])
+            if why0 is not None:
+                acc.count('calls:uncolored-twin-differs-from-closed-form(not C03)')
+                acc.count('calls:twin-issue:%s:%s' % (call['api'], why0.split(',')[0][:60]))
+                if _is_driver_order(case, call):
+                    seen_driver_order = True
+                try:                       # keep both problems in the same state
+                    _do_call(p, call)
+                except Exception:
+                    pass
+                continue
+            setter0 = acc.counters.get('hook:simul_coloring_jac_setter', 0)
+            try:
+                r = _do_call(p, call)
+                why = _compare(case, call, r, blocks, tol)
+                obs = 'colored-differs-from-uncolored'
+            except Exception as e:
+                why = '%s: %s' % (type(e).__name__, str(e)[:200])
+                obs = 'raises:%s' % type(e).__name__
+            used = acc.counters.get('hook:simul_coloring_jac_setter', 0) > setter0
+            acc.count('obs:calls-colored-vs-uncolored')
+            acc.count('cell:calls/%s' % sided)
+            acc.count('cell:calls/api-%s' % call['api'])
+            for kk in {call['ofk'], call['wrtk']}:
+                acc.count('cell:calls/list-%s' % kk)
+            if sided in ('wrt-only', 'of-only') and not _is_driver_order(case, call):
+                acc.count('cell:calls/one-sided-custom')
+                if not seen_driver_order:
+                    acc.count('cell:calls/one-sided-custom-before-coloring-exists')
+            if call.get('fmt'):
+                acc.count('cell:calls/fmt-%s' % call['fmt'])
+            if call['ds']:
+                acc.count('cell:calls/driver-scaling')
+            if call.get('ci') is False:
+                acc.count('cell:calls/coloring_info-False')
+            if used:
+                used_any = True
+                acc.count('obs:calls-coloring-used/%s' % ('driver-order' if _is_driver_order(case, call) else
+                                                          'custom-lists'))
+                if seen_driver_order is False and k > 0 and _is_driver_order(case, call):
+                    acc.count('obs:calls-coloring-used-in-driver-order-call-after-custom-call')
+            if why is not None:
+                acc.viol('calls:%s:%s' % (sig, obs), 'call #%d (%s, %s coloring) %s(of=%s, wrt=%s, fmt=%s, '
+                         'driver_scaling=%s, coloring_info=%s): %s (coloring used in this call: %s)' %
+                         (k, when, case['colsrc'], call['api'], call['of'], call['wrt'], call.get('fmt'), call['ds'],
+                          call.get('ci'), why, used), case)
+                bad = True
+                break           # later calls of the sequence run on a problem in an unknown state
+            if _is_driver_order(case, call):
+                seen_driver_order = True
+        acc.count('cell:calls/%s' % case['colsrc'])
+        acc.count('cell:calls/driver-%s' % case['driver'])
+        if any(case['didx']) or any(case['cidx']):
+            acc.count('cell:calls/desvar-or-constraint-indices')
+        if case['obj'] is not None and case['obj'] > 0:
+            acc.count('cell:calls/objective-declared-after-a-constraint')
+        if not bad:
+            if not used_any:
+                acc.skip('coloring-not-used')
+                return
+            acc.ok(fingerprint(['calls', case['isz'], case['osz'], (np.array(case['A']) != 0).astype(int).tolist(),
+                                case['mode'], case['direct'], case['colsrc'], case['obj'], case['promote'],
+                                case['didx'], case['cidx'], [[c['api'], c['of'], c['wrt'], c.get('fmt'), c['ds'], c.get('ci')]
+                                 for c in case['calls']]]),
+                   nontrivial=True, sample=case if case['idx'] % 23 == 0 else None)
+    finally:
+        _state['ctx'] = None
+        for q in ps:
+            try:
+                q.cleanup()
+            except Exception:
+                pass
+
+
+def gen_psub_case(rng, idx):
+    ni, no = rng.choice([2, 3, 3, 4]), rng.choice([1, 2, 2])
+    isz = [rng.choice([1, 2, 3, 3]) for _ in range(ni)]
+    osz = [rng.choice([1, 2, 3]) for _ in range(no)]
+    m, n = sum(osz), sum(isz)
+    kind = rng.choice(['varblock', 'varblock', 'banded', 'arrow', 'random'])
+    P = _varblock_pattern(rng, osz, isz) if kind == 'varblock' else structured_pattern(rng, m, n, kind)
+    for i in range(m):
+        if not P[i].any():
+            P[i, rng.randrange(n)] = True
+    for j in range(n):
+        if not P[:, j].any():
+            P[rng.randrange(m), j] = True
+    A = [[round(rng.uniform(1, 2), 4) if P[i, j] else 0.0 for j in range(n)] for i in range(m)]
+    pos = rng.choice(['all', 'first', 'middle', 'last', 'several', 'glob'])
+    if pos == 'middle' and ni < 3:
+        pos = 'last'
+    if pos in ('several', 'glob') and ni < 3:
+        pos = 'first'
+    if pos == 'all':
+        pwrt = ['*']
+    elif pos == 'first':
+        pwrt = ['x1']
+    elif pos == 'last':
+        pwrt = ['x%d' % ni]
+    elif pos == 'middle':
+        pwrt = ['x%d' % rng.randrange(2, ni)]
+    else:
+        sub = rng.sample(range(1, ni + 1), rng.randrange(2, ni))       # a strict subset, any order
+        pwrt = ['x%d' % k for k in sub] if pos == 'several' else ['x[%s]' % ''.join(str(k) for k in sorted(sub))]
+    case = {'kind': 'partialsub', 'idx': idx, 'isz': isz, 'osz': osz, 'pkind': kind, 'A': A,
+            'g': rng.choice(['lin', 'sq']), 'x0': [round(rng.uniform(0.5, 1.5), 4) for _ in range(n)],
+            'mode': rng.choice(['fwd', 'rev', 'auto']), 'direct': rng.random() < 0.6, 'promote': rng.random() < 0.5,
+            'driver': rng.choice(['base', 'scipy']), 'obj': None, 'scaling': None, 'pos': pos, 'pwrt': pwrt,
+            'method': rng.choice(['cs', 'cs', 'fd']),
+            'other': rng.choice(['analytic-dense', 'analytic-dense', 'analytic-sparse', 'approx']),
+            'by_block': rng.random() < 0.3, 'pcolsrc': rng.choice(['dynamic', 'dynamic', 'fixed-file'])}
+    return case
+
+
+def run_psub_case(case, acc):
+    """Component coloring declared for some of the inputs only: colored partials == uncolored == closed form, and so
+    are the totals of a driver coloring built on top of the sparsity the component reports."""
+    import tempfile
+    import os
+    install(acc)
+    _state['ctx'] = 'partialsub'
+    ps = []
+    tag = 'wrt-all' if case['pos'] == 'all' else 'wrt-subset'
+    desc = 'position %s, other inputs %s, method %s, %s coloring' % (case['pos'], case['other'], case['method'],
+                                                                    case['pcolsrc'])
+    try:
+        blocks = closed_form_h(case, False)
+        dvs, _, resps, _ = _h_names(case)
+        Jx = np.block([[blocks[a, b] for b in range(len(dvs))] for a in range(len(resps))])
+        A = np.array(case['A'])
+        if case['method'] == 'cs':
+            tol = 1e-11 * np.abs(Jx).max()
+        else:
+            fmax = np.abs(A).sum(axis=1).max() * 2.25
+            tol = np.abs(A).max() * 1e-6 * 1.01 + 32 * np.finfo(float).eps * fmax / 1e-6
+        try:
+            p0 = build_h(case)
+            ps.append(p0)
+            J0 = p0.compute_totals(return_format='array')
+        except Exception as e:
+            acc.skip('uncolored-raises:%s(not C03)' % type(e).__name__)
+            return
+        if J0.shape != Jx.shape or np.any(np.abs(J0 - Jx) > tol):
+            acc.skip('uncolored-differs-from-closed-form(not C03)')
+            return
+        par = 'dynamic'
+        res = {}
+        used = {}
+        stage = 'partials'
+        try:
+            if case['pcolsrc'] != 'dynamic':
+                pg = build_h(case, par='dynamic')
+                ps.append(pg)
+                pg.compute_totals(return_format='array')
+                col = pg.model.c._coloring_info.coloring
+                if col is None:
+                    acc.skip('no-coloring-to-fix')
+                    return
+                par = os.path.join(tempfile.mkdtemp(prefix='c03pcol'), 'partial_coloring.pkl')
+                col.save(par)
+            for stage, tot in (('partials', None), ('totals-on-top', 'dynamic')):
+                c0 = acc.counters.get('hook:_colored_column_iter', 0)
+                s0 = acc.counters.get('hook:simul_coloring_jac_setter', 0)
+                q = build_h(case, tot=tot, par=par)
+                ps.append(q)
+                res[stage] = q.compute_totals(return_format='array')
+                used[stage] = (acc.counters.get('hook:_colored_column_iter', 0) > c0,
+                               acc.counters.get('hook:simul_coloring_jac_setter', 0) > s0)
+        except Exception as e:
+            acc.viol('partialsub:%s:%s:raises:%s' % (tag, stage, type(e).__name__), str(e)[:300], case)
+            return
+        acc.count('obs:partialsub-colored-vs-uncolored')
+        acc.count('cell:partialsub/%s' % case['pos'])
+        acc.count('cell:partialsub/other-%s' % case['other'])
+        acc.count('cell:partialsub/%s' % case['method'])
+        acc.count('cell:partialsub/%s' % case['pcolsrc'])
+        if case['by_block']:
+            acc.count('cell:partialsub/partials-declared-per-nonzero-block')
+        bad = False
+        for stage in ('partials', 'totals-on-top'):
+            J = res[stage]
+            d = np.abs(J - Jx) if J.shape == Jx.shape else None
+            if d is None or np.any(d > tol) or np.any(np.abs(J - J0) > 2 * tol):
+                k = np.unravel_index(np.argmax(d), d.shape) if d is not None else None
+                acc.viol('partialsub:%s:%s:colored-differs-from-uncolored' % (tag, stage),
+                         'declare_coloring(wrt=%s) [%s]: %s' % (case['pwrt'], desc, 'shape %s' % (J.shape,) if d is None else
+                                                         'entry %s colored %r exact %r, %d of %d entries wrong' %
+                                                         (tuple(int(v) for v in k), J[k], Jx[k], int((d > tol).sum()),
+                                                          d.size)), case, new_case=not bad)
+                bad = True
+        if bad:
+            return
+        if not used['partials'][0]:
+            acc.skip('partial-coloring-not-used')
+            return
+        if used['totals-on-top'][1]:
+            acc.count('obs:partialsub-total-coloring-on-top-used')
+        acc.ok(fingerprint(['partialsub', case['isz'], case['osz'], (A != 0).astype(int).tolist(), case['pwrt'],
+                            case['method'], case['other'], case['by_block'], case['pcolsrc'], case['mode']]),
+               nontrivial=True, sample=case if case['idx'] % 23 == 0 else None)
+    finally:
+        _state['ctx'] = None
+        for q in ps:
+            try:
+                q.cleanup()
+            except Exception:
+                pass
+
+
 EXEC_FAMILIES = [['y = 3*a + b**2', 'z = a*b'], ['y = sin(a)', 'z = 2*b'], ['y = a*sum(b)', 'z = b']]
 
 
@@ -598,6 +1231,10 @@ def shards(tier, seed):
     nf = 6 if tier == 'quick' else 16
     for k in range(nf):
         out.append({'kind': 'framework', 'seed': seed * 1000 + 300 + k, 'n': 50 if tier == 'quick' else 150})
+    for k in range(6 if tier == 'quick' else 16):
+        out.append({'kind': 'calls', 'seed': seed * 1000 + 500 + k, 'n': 24 if tier == 'quick' else 90})
+    for k in range(4 if tier == 'quick' else 12):
+        out.append({'kind': 'partialsub', 'seed': seed * 1000 + 700 + k, 'n': 30 if tier == 'quick' else 100})
     return out
 
 
@@ -642,6 +1279,17 @@ def run_shard(shard, acc):
             except Exception as e:
                 import traceback
                 acc.viol('harness-error:%s' % type(e).__name__, traceback.format_exc()[-500:], {'kind': 'harness'})
+    elif shard['kind'] in ('calls', 'partialsub'):
+        rng = random.Random(shard['seed'])
+        for i in range(shard['n']):
+            try:
+                if shard['kind'] == 'calls':
+                    run_calls_case(gen_calls_case(rng, i), acc)
+                else:
+                    run_psub_case(gen_psub_case(rng, i), acc)
+            except Exception as e:
+                import traceback
+                acc.viol('harness-error:%s' % type(e).__name__, traceback.format_exc()[-500:], {'kind': 'harness'})
 
 
 def run_case(case, acc):
@@ -655,6 +1303,10 @@ def run_case(case, acc):
         run_fw_case(case, acc)
     elif case['kind'] == 'execcomp':
         run_execcomp_case(case, acc)
+    elif case['kind'] == 'calls':
+        run_calls_case(case, acc)
+    elif case['kind'] == 'partialsub':
+        run_psub_case(case, acc)
 
 
 def coverage_extra(tier, agg):
